@@ -12,8 +12,8 @@ from mc.ref import cheader, ilog as rilog
 PROPERTY = 'C14'
 LEVEL = 'exploration'
 ENGINE = 'E1'
-TECHNIQUE = ('bounded-exhaustive enumeration: all PTE tables of <= 2 (thorough 3) entries over an 18-entry overlapping-pattern '
-             'alphabet x a 336-entry ILOG alphabet (timestamps x sequence numbers x PTEs around every pattern boundary), '
+TECHNIQUE = ('bounded-exhaustive enumeration: all PTE tables of <= 2 (thorough 3) entries over a 29-entry overlapping-pattern '
+             'alphabet x a 684-entry ILOG alphabet (timestamps x sequence numbers x PTEs around every pattern boundary), '
              'zero entries and trailing partial lengths; both shipped tables with every wildcard fill in a 7-value alphabet x '
              'reported-bit x error-nibble variants and all one-nibble near misses; real parse_ilog_data vs. an independent '
              'decoder and an independent header-file scanner')
@@ -24,7 +24,7 @@ LEVEL_TEXT = ('The decoder is compared line by line with a reference decoder wri
               'one-nibble deviation, and the table as read by the repository is compared with an independent scan.')
 LEVEL_NOTE = ('PTE values outside the derived alphabets and header syntax beyond the shipped style are not explored; CPython '
               '%-formatting trusted')
-RULE = ('synthetic: tables = all sequences of length 0..2 (quick) / 0..3 (thorough) over 28 (pattern, message, params) entries (incl. multi-digit parameter numbers, a non-wildcard metacharacter, reported-error catch-all), '
+RULE = ('synthetic: tables = all sequences of length 0..2 (quick) / 0..3 (thorough) over 29 (pattern, message, params) entries (incl. line-separator characters inside a description, multi-digit parameter numbers, a non-wildcard metacharacter, reported-error catch-all), '
         'each in 2 syntax variants; data = blob of all alphabet entries, the reversed blob with all-zero entries '
         'interleaved, each with trailing partial lengths 0..7. shipped: per table entry, wildcard runs filled jointly with '
         '{0,1,4,5,9,A,F} x reported bit {as is,set,clear} x top nibble {as is,E}; literal patterns x 8 positions x 2 '
@@ -65,6 +65,9 @@ ALPHA = [
     ('0107**00', '', []),
     ('0107****', '   ', []),
     ('E7******', '', [3]),
+    # a table entry is one line of the file: only a line feed ends it, not the other characters str.splitlines() breaks at
+    ('0108**00', 'form\x0cfeed, vt\x0b, byte three %d', [3]),
+    ('0108****', 'rs\x1e nel\x85 ls\u2028 ps\u2029 in one description', []),
 ]
 TS = [0, 1, 3599, 3600, 65534, 65535]
 SEQ = [0, 0xBEEF]
@@ -79,7 +82,7 @@ def pte_alphabet():
                     out.append((n0 << 28) | (n1 << 24) | (n3 << 16) | n7)
     out += [0x01004142, 0x01014142, 0x0101FF00, 0xFFFFFFFF, 0x00000000, 0xE1040000, 0xE1000000, 0xE0041234, 0xF0040000, 0xE20C0190, 0xE2080190, 0xE30C7704, 0xE3087704,
             0x01022A00, 0x01022A2B, 0x01042A00, 0x01042A2B, 0x01052A2B, 0x0103A000, 0x01030000, 0xE4040000, 0xE4000000, 0xEF0C0001,
-            0x01062A00, 0x01062A2B, 0xE60C7704, 0xE6087704, 0x01072A00, 0x01072A2B, 0xE70C7704, 0xE7087704]
+            0x01062A00, 0x01062A2B, 0xE60C7704, 0xE6087704, 0x01072A00, 0x01072A2B, 0xE70C7704, 0xE7087704, 0x01082A00, 0x01082A2B]
     return out
 
 
